@@ -28,6 +28,10 @@ pub enum MinterSel {
     ThirdParty,
     Deployer,
     Service,
+    /// (remote deploy messages only; a local deployment treats it as "none") the message's minter field is not empty
+    /// but is not the encoding of an address either: 0 well-formed XDR of a string (the third party's address spelled
+    /// out), 1 well-formed XDR of a number, 2 the third party's address encoding cut short
+    NotAnAddress(u8),
 }
 
 #[derive(Clone, Copy, Debug, Serialize, Deserialize, PartialEq, Eq)]
@@ -121,7 +125,7 @@ fn meta_valid(m: Meta) -> bool {
 }
 
 fn minter_sel() -> impl Strategy<Value = MinterSel> {
-    prop_oneof![3 => Just(MinterSel::None), 3 => Just(MinterSel::ThirdParty), 1 => Just(MinterSel::Deployer), 1 => Just(MinterSel::Service)]
+    prop_oneof![3 => Just(MinterSel::None), 3 => Just(MinterSel::ThirdParty), 1 => Just(MinterSel::Deployer), 1 => Just(MinterSel::Service), 1 => (0u8..3).prop_map(MinterSel::NotAnAddress)]
 }
 
 fn supply() -> impl Strategy<Value = Supply> {
@@ -263,7 +267,7 @@ impl Property for C11 {
                     let predicted = inject_native_token(env, &s.id, &want_id);
                     ensure_p!(addr_sv(&predicted) == Sv::Contract(want_addr_hash), "predicted token address differs from the independent derivation");
                     let minter_addr: Option<Address> = match minter {
-                        MinterSel::None => None,
+                        MinterSel::None | MinterSel::NotAnAddress(_) => None,
                         MinterSel::ThirdParty => Some(third.clone()),
                         MinterSel::Deployer => Some(dep.clone()),
                         MinterSel::Service => Some(s.id.clone()),
@@ -476,10 +480,33 @@ impl Property for C11 {
                         nontrivial = true;
                     }
                     let minter_addr: Option<Address> = match minter {
-                        MinterSel::None | MinterSel::Service => None,
+                        MinterSel::None | MinterSel::Service | MinterSel::NotAnAddress(_) => None,
                         MinterSel::ThirdParty => Some(third.clone()),
                         MinterSel::Deployer => Some(w.users[0].clone()),
                     };
+                    // a designated minter that is no address: nobody can be given the right the message asks for
+                    let bad_minter: Option<Vec<u8>> = match minter {
+                        MinterSel::NotAnAddress(k) => Some(match k % 3 {
+                            0 => {
+                                use soroban_sdk::xdr::ToXdr;
+                                third.to_string().to_xdr(env).to_alloc_vec()
+                            }
+                            1 => {
+                                use soroban_sdk::xdr::ToXdr;
+                                7u32.to_xdr(env).to_alloc_vec()
+                            }
+                            _ => {
+                                let mut v = address_xdr(env, &third);
+                                v.truncate(v.len() - 5);
+                                v
+                            }
+                        }),
+                        _ => None,
+                    };
+                    if bad_minter.is_some() {
+                        cx.label("remote_deploy_designating_a_minter_that_is_no_address");
+                        nontrivial = true;
+                    }
                     if minter_addr.is_some() {
                         nontrivial = true;
                     }
@@ -492,7 +519,10 @@ impl Property for C11 {
                         name: name.clone(),
                         symbol: symbol.clone(),
                         decimals: word_u64(decimals as u64),
-                        minter: minter_addr.as_ref().map(|m| address_xdr(env, m)).unwrap_or_default(),
+                        minter: match &bad_minter {
+                            Some(b) => b.clone(),
+                            None => minter_addr.as_ref().map(|m| address_xdr(env, m)).unwrap_or_default(),
+                        },
                     };
                     let payload = ItsWorld::receive_payload("ethereum", &inner);
                     msg_no += 1;
@@ -503,9 +533,9 @@ impl Property for C11 {
                     let ev0 = events_len(env);
                     let r = s.client.try_execute(&sstr(env, HUB_CHAIN), &sstr(env, &mid), &sstr(env, HUB_ADDR), &soroban_sdk::Bytes::from_slice(env, &payload));
                     let ok = matches!(r, Ok(Ok(())));
-                    if colliding || !valid {
+                    if colliding || !valid || bad_minter.is_some() {
                         cx.count("must_fail");
-                        ensure_p!(!ok, "step {}: remote deploy message accepted (taken id: {}, valid metadata: {})", step, colliding, valid);
+                        ensure_p!(!ok, "step {}: remote deploy message accepted (taken id: {}, valid metadata: {}, designated minter is an address: {}): the token exists but its designated minter got no minting right", step, colliding, valid, bad_minter.is_none());
                         ensure_p!(snapshot(env) == snap0 && events_len(env) == ev0, "step {}: rejected remote deploy changed state", step);
                     } else {
                         cx.count("must_succeed");
